@@ -2,5 +2,5 @@ CONSTANTS N = 400  MaxOps = 12  WithTxn = FALSE  WithDDL = FALSE  WithPad = FALS
 SPECIFICATION Spec
 VIEW view
 INVARIANT CountsConsistent
-ACTION_CONSTRAINT Emit
+ACTION_CONSTRAINT EmitSlim
 CHECK_DEADLOCK FALSE
